@@ -448,6 +448,27 @@ def r17_single_from_breaktie(ctx):
                           '`%s` is picked without breakTie (%s): a tie would be resolved by position, not by the declared order, and not logged'
                           % (recv.id, '; '.join(sorted(set('/'.join(s.ops) or 'direct' for s in srcs))) or 'no derivation'))
     ctx.floor(R, 'single-candidate action sites', n, 13)
+    # breakTie hands back one of the LIVE candidates it was given: the parameter holding the tied candidates is only ever narrowed to
+    # elements of itself (`tied = [c for c in tied if ...]`); it is never re-bound to other objects (the per-round snapshots in
+    # E.rounds are copies: electing / defeating a copy changes nobody's status)
+    for ri in rules(ctx):
+        bt = ri.helper(ctx, 'breakTie')
+        if bt is None:
+            continue
+        tied = _tied_param(bt)
+        for v, st in bt.assigns().get(tied, []):
+            okn = False
+            if isinstance(v, (ast.ListComp, ast.GeneratorExp)) and len(v.generators) == 1 and isinstance(v.elt, ast.Name) \
+                    and isinstance(v.generators[0].target, ast.Name) and v.elt.id == v.generators[0].target.id \
+                    and isinstance(v.generators[0].iter, ast.Name) and v.generators[0].iter.id == tied:
+                okn = True
+            if isinstance(v, ast.Call) and isinstance(v.func, ast.Name) and v.func.id in ('list', 'sorted', 'tuple') and v.args \
+                    and isinstance(v.args[0], ast.Name) and v.args[0].id == tied:
+                okn = True
+            ctx.check(okn, R, st, bt, 'breakTie chooses among the live candidates it was given',
+                      '`%s` is narrowed to its own elements' % tied,
+                      '`%s` re-binds the tied candidates to other objects (`%s`): what breakTie returns is then not the live candidate - the caller elects / '
+                      'defeats a copy and the real candidate keeps its status' % (stmt_text(st), unparse(v)[:60] if isinstance(v, ast.AST) else v))
 
 
 # ---------------------------------------------------------------------------
